@@ -11,12 +11,14 @@ import (
 	"bufio"
 	"bytes"
 	"fmt"
+	"github.com/KevoDB/kevo/pkg/verifhook"
 	"hash/crc32"
 	"math/rand"
 	"os"
 	"path/filepath"
 	"strconv"
 	"strings"
+	"time"
 
 	"github.com/KevoDB/kevo/pkg/config"
 	"github.com/KevoDB/kevo/pkg/wal"
@@ -193,6 +195,44 @@ func runC09(c *Case, out func(string)) {
 				return
 			}
 			nw.UpdateNextSequence(next)
+			w = nw
+		case "closerace":
+			// an append that arrives while the log is being closed: Close is held behind its flush
+			// and sync (hook site wal.close.synced), an append is started, Close goes on. The append
+			// either is refused (the model: a reopen, nothing appended) or, if it is acknowledged,
+			// is in the log like every acknowledged append.
+			k, v := tok(l[1]), tok(l[2])
+			next := w.GetNextSequence()
+			verifhook.Hold("wal.close.synced")
+			closed := make(chan struct{})
+			go func() { w.Close(); close(closed) }()
+			dl := time.Now().Add(5 * time.Second)
+			for verifhook.Waiting("wal.close.synced") < 1 && time.Now().Before(dl) {
+				time.Sleep(200 * time.Microsecond)
+			}
+			type ar struct {
+				seq uint64
+				err error
+			}
+			ach := make(chan ar, 1)
+			ow := w
+			go func() { s, e := ow.Append(wal.OpTypePut, k, v); ach <- ar{s, e} }()
+			time.Sleep(20 * time.Millisecond) // the append is at the log's mutex (or through it)
+			verifhook.Release("wal.close.synced")
+			<-closed
+			res := <-ach
+			if res.err == nil {
+				// acknowledged: it counts as appended (the model does not expect it: reported below
+				// through the comparison of what was appended with what the log returns)
+				record(res.seq, wal.OpTypePut, k, v)
+				next = res.seq + 1
+				out(fmt.Sprintf("NOTE closerace: the append was acknowledged with sequence %d", res.seq))
+			}
+			nw, err := wal.ReuseWAL(cfg, wdir, next)
+			if err != nil || nw == nil {
+				out(fmt.Sprintf("IMPL-ERROR reuse %v", err))
+				return
+			}
 			w = nw
 		case "reopen":
 			next := w.GetNextSequence()
@@ -488,7 +528,11 @@ func genC09Case(w *bufio.Writer, r *rand.Rand, caseLine string) {
 			case 4:
 				fmt.Fprintf(w, "rotate\n")
 			case 5:
-				fmt.Fprintf(w, "reopen\n")
+				if r.Intn(4) == 0 {
+					fmt.Fprintf(w, "closerace %s %s\n", genSizedTok(r, false), genSizedTok(r, false))
+				} else {
+					fmt.Fprintf(w, "reopen\n")
+				}
 			case 6:
 				fmt.Fprintf(w, "from %d\n", r.Intn(nops+2))
 			case 7:
